@@ -20,6 +20,7 @@ RULE = (
     'every assignment of counts {0,1,2,7} to the voxels of grids (2,2,1), (1,3,2), (2,2,2) with at least one '
     'non-zero voxel (255 + 4095 + 65535), also scaled by 1/8 and 1/3 (float densities below 1) and as float32, x temperatures {1,77,300,1000,20000} K, C / Fortran / transposed-view memory layouts, queried one after the other on the SAME Volume object (first temperature repeated at the end); graph node sets for thresholds '
     '{default 1e20, 1e7}; evaluation = one (density, temperature); distinct = distinct (density, T) free-energy arrays'
+    '; all densities over {0, 1, 3, 1e9, 4e12}^4 on the 2x2x1 grid (int64 and float64, 300 K and 1000 K), probabilities compared relatively (1e-9)'
 )
 LEVEL_TEXT = (
     'Complete enumeration of all small integer densities over a 4-value count alphabet on three grid '
